@@ -77,45 +77,59 @@ def _cvc5(smt2, timeout_s, logic=None):
 
 
 def prove(name, hyps, goal, meta=None, timeout_ms=None, keep_smt2=False, want_model=True, use_cvc5=True):
-    """Try to prove ``And(hyps) -> goal``."""
+    """Try to prove ``And(hyps) -> goal``.  Strategy: z3 default (short) -> z3 nlsat tactic -> z3 default (full) -> cvc5."""
     timeout_ms = timeout_ms or Z3_MS
     t0 = time.time()
-    s = z3.Solver()
-    s.set('timeout', timeout_ms)
-    for h in hyps:
-        s.add(h)
-    s.add(z3.Not(goal))
+    neg = z3.Not(goal)
+
+    def mk(solver, ms):
+        solver.set('timeout', ms)
+        for h in hyps:
+            solver.add(h)
+        solver.add(neg)
+        return solver
+
+    s = mk(z3.Solver(), min(1500, timeout_ms))
     smt2 = s.to_smt2() if keep_smt2 else None
+
+    def done(verdict, backend, solver=None, note=''):
+        model = None
+        if verdict == 'refuted' and want_model and solver is not None:
+            try:
+                model = model_to_dict(solver.model())
+            except z3.Z3Exception:
+                model = None
+        return Result(name, verdict, backend, time.time() - t0, model=model, smt2=smt2, meta=meta, note=note)
+
     r = s.check()
     if r == z3.unsat:
-        return Result(name, 'proved', 'z3', time.time() - t0, smt2=smt2, meta=meta)
+        return done('proved', 'z3')
     if r == z3.sat:
-        m = s.model()
-        return Result(name, 'refuted', 'z3', time.time() - t0, model=model_to_dict(m) if want_model else None,
-                      smt2=smt2, meta=meta)
-    # unknown: nlsat tactic, then cvc5
+        return done('refuted', 'z3', s)
     try:
-        t = z3.Then('simplify', 'purify-arith', 'qfnra-nlsat')
-        s2 = t.solver()
-        s2.set('timeout', timeout_ms)
-        for h in hyps:
-            s2.add(h)
-        s2.add(z3.Not(goal))
+        s2 = mk(z3.Then('simplify', 'solve-eqs', 'purify-arith', 'qfnra-nlsat').solver(), timeout_ms)
         r2 = s2.check()
         if r2 == z3.unsat:
-            return Result(name, 'proved', 'z3-nlsat', time.time() - t0, smt2=smt2, meta=meta)
+            return done('proved', 'z3-nlsat')
+        if r2 == z3.sat:
+            return done('refuted', 'z3-nlsat', s2)
     except z3.Z3Exception:
         pass
+    if timeout_ms > 1500:
+        s3 = mk(z3.Solver(), timeout_ms)
+        r3 = s3.check()
+        if r3 == z3.unsat:
+            return done('proved', 'z3')
+        if r3 == z3.sat:
+            return done('refuted', 'z3', s3)
     if use_cvc5:
         txt = s.to_smt2()
-        r3 = _cvc5(txt, CVC5_S)
-        if r3 == 'unsat':
-            return Result(name, 'proved', 'cvc5', time.time() - t0, smt2=smt2, meta=meta)
-        if r3 == 'sat':
-            return Result(name, 'refuted', 'cvc5', time.time() - t0, model=None, smt2=smt2, meta=meta,
-                          note='cvc5 sat (no model extracted)')
-    return Result(name, 'unknown', 'z3+cvc5', time.time() - t0, smt2=smt2, meta=meta,
-                  note=s.reason_unknown())
+        r4 = _cvc5(txt, CVC5_S)
+        if r4 == 'unsat':
+            return done('proved', 'cvc5')
+        if r4 == 'sat':
+            return done('refuted', 'cvc5', None, note='cvc5 sat (no model extracted)')
+    return done('unknown', 'z3+cvc5', None, note=s.reason_unknown())
 
 
 def satisfiable(hyps, timeout_ms=5000):
